@@ -8,12 +8,17 @@ def cfg(ctrls, maxmsgs, lens, nbg):
     for i in ("ParseInvertsAssembly", "LengthExact", "Beyond", "HeaderKept"): t += "INVARIANT %s\n" % i
     return t
 
-def msgtok(msgs):
+def msgtok(msgs, closes=()):
     def one(m):
         if m["kind"] == "gpc":                 # the application's payload is the unpadded prefix; the specification stores it padded
                     return "g:%012x:0:%s" % (from64(m["id"]), hexs(m["payload"][:m["rawlen"]]))
         return "%s:%08x:%d:%s" % (m["kind"][0], from64(m["id"]) & 0xFFFFFFFF, m["fd"], hexs(m["payload"]))
-    return ";".join(one(m) for m in msgs) or "-"
+    toks = []
+    for i, m in enumerate(msgs):
+        toks += ["c"] * sum(1 for c in closes[:-1] if c == i)        # intermediate closes (the last close is the command's own)
+        toks.append(one(m))
+    toks += ["c"] * sum(1 for c in closes[:-1] if c == len(msgs))
+    return ";".join(toks) or "-"
 
 def walktok(msgs):
     def one(m):
@@ -22,7 +27,7 @@ def walktok(msgs):
     return "".join(one(m) for m in msgs) or "-"
 
 def cmd(vec, place, off):
-    return "CT %s %s %d %s %s" % (vec["ctrl"], place, off, hexs(vec["pre"]), msgtok(vec["msgs"]))
+    return "CT %s %s %d %s %s" % (vec["ctrl"], place, off, hexs(vec["pre"]), msgtok(vec["msgs"], vec.get("closes", ())))
 
 def compare(vec, line, v, what):
     t = line.split()
